@@ -49,6 +49,20 @@ class Rec:
         return "<%s %s>" % (self.cls, ", ".join(sorted(self.fields)))
 
 
+def record_types_of(*modules):
+    """{class name: [(field, default expression or None), ...]} for the NamedTuple / dataclass record types of the given modules."""
+    out = {}
+    for m in modules:
+        if m is None:
+            continue
+        for c in m.classes.values():
+            bases = {norm(b).split(".")[-1] for b in c.node.bases}
+            decos = {norm(d).split(".")[-1].split("(")[0] for d in c.node.decorator_list}
+            if "NamedTuple" in bases or "dataclass" in decos:
+                out[c.name] = [(st.target.id, st.value) for st in c.node.body if isinstance(st, ast.AnnAssign) and isinstance(st.target, ast.Name)]
+    return out
+
+
 class Obj(Unknown):
     """An unknown value that is known not to be None (bytes received, an object just built)."""
 
@@ -905,6 +919,30 @@ class Interp:
             name = f.attr
             if isinstance(f.value, ast.Name) and f.value.id == self.selfname:
                 name = "self." + f.attr
+        rts = getattr(self, "record_types", None)
+        if rts and isinstance(f, ast.Name) and f.id in rts and f.id not in st.env:
+            flds = rts[f.id]
+            vals = {}
+            ok_ = len(args) <= len(flds) and all(k in dict(flds) for k in kw)
+            if ok_:
+                for (fn_, _d), a_ in zip(flds, args):
+                    vals[fn_] = a_
+                for k_, v_ in kw.items():
+                    vals[k_] = v_
+                for fn_, d_ in flds:
+                    if fn_ not in vals:
+                        if d_ is None:
+                            ok_ = False
+                            break
+                        dv = self.eval(d_, st)
+                        if len(dv) != 1 or isinstance(dv[0][0], Exc):
+                            ok_ = False
+                            break
+                        vals[fn_] = dv[0][0]
+            if ok_ and all(isinstance(v_, Const) for v_ in vals.values()):
+                rec = Rec(f.id, **{k_: v_.v for k_, v_ in vals.items()})
+                rec.order = [fn_ for fn_, _ in flds]
+                return [(Const(rec), st)]
         if isinstance(callee, Const) and isinstance(callee.v, LamV) and not kw and len(args) == len(callee.v.node.args.args):
             s2 = st.copy()
             saved = {}
@@ -1113,7 +1151,7 @@ class Interp:
                      loop_unroll=self.loop_unroll, depth=self.depth + 1, max_depth=self.max_depth,
                      exc_bases=self.exc_bases, resolve=self.resolve, selfname=self_param)
         sub.unknowns = self.unknowns
-        for hk in ("getattr_hook", "yield_hook", "exc_fields"):
+        for hk in ("getattr_hook", "yield_hook", "exc_fields", "record_types"):
             if getattr(self, hk, None) is not None:
                 setattr(sub, hk, getattr(self, hk))
         params = list(func.params)
